@@ -526,12 +526,16 @@ func runC11(c *Ctx, w *World, r *Report) {
 			}
 			// append of the path, guarded by !dedup || p != prev
 			napp := 0
+			cursorSt := cursorStores(fa, fn)
 			eachInstr(fn, func(ins ssa.Instruction) {
-				call, ok := ins.(*ssa.Call)
-				if !ok {
-					return
+				var vals []ssa.Value
+				call := ins
+				if c, ok := ins.(*ssa.Call); ok {
+					vals = appendedValues(c)
+				} else if st, ok := ins.(*ssa.Store); ok && cursorSt[st] != nil {
+					// rst[n] = p; n++ into a list pre-sized for every key, returned as rst[:n]: an append in other words
+					vals = []ssa.Value{st.Val}
 				}
-				vals := appendedValues(call)
 				if len(vals) == 0 {
 					return
 				}
@@ -643,8 +647,12 @@ func runC11(c *Ctx, w *World, r *Report) {
 					// is there a first-iteration bypass? a way into the append that neither needs !dedup nor compares with prev
 					bypass := false
 					eachInstr(fn, func(i2 ssa.Instruction) {
-						call, ok := i2.(*ssa.Call)
-						if !ok || len(appendedValues(call)) != 1 {
+						call := i2
+						if c, ok := i2.(*ssa.Call); ok {
+							if len(appendedValues(c)) != 1 {
+								return
+							}
+						} else if st, ok := i2.(*ssa.Store); !ok || cursorStores(fa, fn)[st] == nil {
 							return
 						}
 						for _, cs := range fa.CondsDNF(call.Block(), 0) {
@@ -677,6 +685,13 @@ func runC11(c *Ctx, w *World, r *Report) {
 				for _, src := range resolvePhi(ret.Results[0]) {
 					okSrc := false
 					switch x := src.(type) {
+					case *ssa.Slice:
+						// rst[:n] with n the cursor of the stores
+						for st, cur := range cursorStores(fa, fn) {
+							if ia, ok := st.Addr.(*ssa.IndexAddr); ok && ia.X == x.X && x.Low == nil && x.High != nil && stripConv(x.High) == ssa.Value(cur) {
+								okSrc = true
+							}
+						}
 					case *ssa.Call:
 						okSrc = len(appendedValues(x)) > 0
 					case *ssa.MakeSlice:
@@ -719,4 +734,62 @@ func init() {
 		Quick:   []Config{cfgDefault, cfg386}, Thorough: []Config{cfgDefault, cfg386},
 		Run: runC11,
 	})
+}
+
+// cursorStores: stores xs[n] = v into a locally made slice where n is a cursor - a loop-carried counter that starts at
+// 0 and is advanced by exactly 1 in the block of the store (and nowhere else): the k-th store fills element k, which
+// is what append does to a list that is long enough. Maps each such store to its cursor.
+func cursorStores(fa *FA, fn *ssa.Function) map[*ssa.Store]*ssa.Phi {
+	out := map[*ssa.Store]*ssa.Phi{}
+	eachInstr(fn, func(ins ssa.Instruction) {
+		st, ok := ins.(*ssa.Store)
+		if !ok {
+			return
+		}
+		ia, ok := st.Addr.(*ssa.IndexAddr)
+		if !ok {
+			return
+		}
+		if _, isMk := ia.X.(*ssa.MakeSlice); !isMk {
+			return
+		}
+		cur, ok := stripConv(ia.Index).(*ssa.Phi)
+		if !ok || !isLoopHeaderPhi(cur) {
+			return
+		}
+		hb := cur.Block()
+		for i, e := range cur.Edges {
+			pred := hb.Preds[i]
+			if !hb.Dominates(pred) {
+				if k, isK := constInt64(stripConv(e)); !isK || k != 0 {
+					return
+				}
+				continue
+			}
+			for _, lf := range fa.leavesOf1(e, pred, 1) {
+				v := stripConv(lf.V)
+				if v == ssa.Value(cur) {
+					continue
+				}
+				x, k, okA := asBinConst(v, token.ADD)
+				bo, isBo := v.(*ssa.BinOp)
+				if !okA || x != ssa.Value(cur) || k != 1 || !isBo || bo.Block() != st.Block() {
+					return
+				}
+			}
+		}
+		// the store's block must advance the cursor
+		adv := false
+		for _, i2 := range st.Block().Instrs {
+			if bo, ok := i2.(*ssa.BinOp); ok {
+				if x, k, okA := asBinConst(bo, token.ADD); okA && x == ssa.Value(cur) && k == 1 {
+					adv = true
+				}
+			}
+		}
+		if adv {
+			out[st] = cur
+		}
+	})
+	return out
 }
